@@ -31,6 +31,7 @@ RULE = ("random operation histories (length <= 12; all histories of length <= 3 
 RULE += (' Also: adapter and future-like underlying iterators; a second task closing the handle while a read through it is pending; scopes (scoped_iter) opened over a borrowed handle, the ended scoped handle staying under observation; tools whose own callable fails while they hold the handle; reads through a bound __anext__ taken before the first item; islice with an unaligned stop.')
 RULE += (' Also: the handle as one of several inputs of a tool at every position (zip strict with 3-4 inputs, zip(h, h), map with two inputs, chain middle, compress selectors, merge with a second source); a tool ending in ValueError is compared like one that ends.')
 RULE += (' Also: scopes over borrowed handles left by an Exception / BaseException raised in the block.')
+RULE += (' Also: a front-end iterator whose __aiter__ hands out the inner iterator shared with its owner.')
 ASSUMPTIONS = ["laziness of the tools themselves is C05's concern; here the stdlib twin predicts how many items a tool takes",
                "athrow is not part of the property's operation list and is not generated"]
 EXHAUSTIVE_SUBSPACES = 'all histories of length <= 3 (thorough: 4) over a 13-operation alphabet'
